@@ -66,8 +66,13 @@ def _wrapper_attr(w):
 WRAPPERS = {w: _wrapper(w) for w in 'abc'}
 WRAPPERS_ATTR = {w: _wrapper_attr(w) for w in 'abc'}
 
+# the *_f variants spell the lifting filters out (all collections / streams the family uses): same meaning as the defaults
 LIFTS = {'jit': nn.jit, 'remat': nn.remat,
-         'mapvars': functools.partial(nn.map_variables, mapped_collections=True, mutable=True)}
+         'mapvars': functools.partial(nn.map_variables, mapped_collections=True, mutable=True),
+         'jit_f': functools.partial(nn.jit, variables=['params', 'st'], rngs=['params', 'drop']),
+         'remat_f': functools.partial(nn.remat, variables=['params', 'st'], rngs=['params', 'drop'], prevent_cse=False),
+         'mapvars_f': functools.partial(nn.map_variables, mapped_collections=['params', 'st'], mutable=True, rngs=['params', 'drop'],
+                                        variables=['params', 'st'])}
 
 
 @functools.lru_cache(maxsize=None)
